@@ -963,3 +963,151 @@ Proof.
   rewrite (forest_of_pre_pn (T g n a ks) (S (length (pnf 1 ks)))) by (cbn [pn length]; unfold pnf; lia).
   rewrite (sib_dups_erase (T g n a ks) Hsd). reflexivity.
 Qed.
+
+(* ------------------------------------------------------------------------------------------ *)
+(* yield_tree's loop (set of unclosed depths) computes the textbook recursive rendering         *)
+
+Lemma memb_set_add x y s : memb x (set_add y s) = Nat.eqb x y || memb x s.
+Proof.
+  unfold set_add. destruct (memb y s) eqn:E.
+  - destruct (Nat.eqb x y) eqn:Exy; [|reflexivity]. apply Nat.eqb_eq in Exy. subst. rewrite E. reflexivity.
+  - reflexivity.
+Qed.
+
+Lemma memb_set_remove x y s : memb x (set_remove y s) = negb (Nat.eqb x y) && memb x s.
+Proof.
+  unfold set_remove, memb. induction s as [|z s IH]; cbn [filter existsb].
+  - rewrite andb_false_r. reflexivity.
+  - destruct (Nat.eqb y z) eqn:Eyz; cbn [negb existsb].
+    + rewrite IH. apply Nat.eqb_eq in Eyz. subst z. rewrite (Nat.eqb_sym x y).
+      destruct (Nat.eqb y x); reflexivity.
+    + rewrite IH. destruct (Nat.eqb x z) eqn:Exz; cbn [orb].
+      * apply Nat.eqb_eq in Exz. subst z. rewrite (Nat.eqb_sym x y), Eyz. reflexivity.
+      * reflexivity.
+Qed.
+
+Section Render.
+  Variables stem branch final : str.
+  Let st : style := (stem, branch, final).
+  Let gap : str := repeat 32 (length stem).
+
+  Definition pfxS (U : list nat) (m : nat) : str :=
+    concat (map (fun k => if memb k U then stem else gap) (seq 1 m)).
+  Definition agree (m : nat) (U U' : list nat) : Prop := forall j, (j <= m)%nat -> memb j U = memb j U'.
+
+  Lemma pfxS_frame m U U' : agree m U U' -> pfxS U m = pfxS U' m.
+  Proof.
+    intros H. unfold pfxS. f_equal. apply map_ext_in. intros k Hk. apply in_seq in Hk.
+    rewrite (H k ltac:(lia)). reflexivity.
+  Qed.
+
+  Lemma pfxS_S U m : pfxS U (S m) = pfxS U m ++ (if memb (S m) U then stem else gap).
+  Proof.
+    unfold pfxS. rewrite seq_S, map_app, concat_app. cbn [map concat Nat.add]. rewrite app_nil_r. reflexivity.
+  Qed.
+
+  Definition pre_kids (m : nat) (ks : list tree) : list (nat * bool * str) :=
+    (fix go (l : list tree) : list (nat * bool * str) :=
+       match l with
+       | [] => []
+       | k :: r => pre_info (S m) (negb (is_nil r)) k ++ go r
+       end) ks.
+
+  Definition ref_kids (pfx : str) (ks : list tree) : list str :=
+    (fix go (l : list tree) : list str :=
+       match l with
+       | [] => []
+       | k :: r =>
+           let last := nilb r in
+           (pfx ++ (if last then final else branch) ++ tname k)
+             :: ref_below (stem, branch, final) (pfx ++ (if last then repeat 32 (length stem) else stem)) k ++ go r
+       end) ks.
+
+  Definition sub_spec (t : tree) : Prop :=
+    forall d' hr U, exists U2,
+      agree d' U U2 /\ memb (S d') U2 = hr /\
+      forall rest,
+        map line_of (yield_go st gap U (pre_info (S d') hr t ++ rest))
+        = (pfxS U d' ++ (if hr then branch else final) ++ tname t)
+            :: ref_below st (pfxS U d' ++ (if hr then stem else gap)) t
+            ++ map line_of (yield_go st gap U2 rest).
+
+  Lemma kids_spec ks : Forall sub_spec ks ->
+    forall m U, exists U2,
+      agree m U U2 /\
+      forall rest,
+        map line_of (yield_go st gap U (pre_kids m ks ++ rest))
+        = ref_kids (pfxS U m) ks ++ map line_of (yield_go st gap U2 rest).
+  Proof.
+    intros HF. induction HF as [|k r Hk Hr IH]; intros m U.
+    - exists U. split; [intros j _; reflexivity|]. intros rest. reflexivity.
+    - destruct (Hk m (negb (is_nil r)) U) as (U1 & A1 & _ & E1).
+      destruct (IH m U1) as (U2 & A2 & E2).
+      exists U2. split; [intros j Hj; rewrite (A1 j Hj); apply A2; exact Hj|].
+      intros rest.
+      change (pre_kids m (k :: r)) with (pre_info (S m) (negb (is_nil r)) k ++ pre_kids m r).
+      rewrite <- app_assoc. rewrite E1. rewrite E2.
+      rewrite <- (pfxS_frame m U U1 A1).
+      change (ref_kids (pfxS U m) (k :: r))
+        with ((pfxS U m ++ (if nilb r then final else branch) ++ tname k)
+                :: ref_below (stem, branch, final)
+                     (pfxS U m ++ (if nilb r then repeat 32 (length stem) else stem)) k
+                ++ ref_kids (pfxS U m) r).
+      destruct r as [|k2 r]; cbn [is_nil nilb negb]. all: rewrite <- app_comm_cons, <- app_assoc; reflexivity.
+  Qed.
+
+  Lemma sub_spec_all t : sub_spec t.
+  Proof.
+    induction t as [g n a ks IH] using tree_ind'. intros d' hr U.
+    set (U' := if hr then set_add (S d') U else set_remove (S d') U).
+    assert (A' : agree d' U U').
+    { intros j Hj. unfold U'. destruct hr.
+      - rewrite memb_set_add. replace (Nat.eqb j (S d')) with false by (symmetry; apply Nat.eqb_neq; lia).
+        reflexivity.
+      - rewrite memb_set_remove. replace (Nat.eqb j (S d')) with false by (symmetry; apply Nat.eqb_neq; lia).
+        reflexivity. }
+    assert (M' : memb (S d') U' = hr).
+    { unfold U'. destruct hr.
+      - rewrite memb_set_add, Nat.eqb_refl. reflexivity.
+      - rewrite memb_set_remove, Nat.eqb_refl. reflexivity. }
+    destruct (kids_spec ks IH (S d') U') as (U2 & A2 & E2).
+    exists U2. split; [|split].
+    - intros j Hj. rewrite (A' j Hj). apply A2. lia.
+    - rewrite <- (A2 (S d') ltac:(lia)). exact M'.
+    - intros rest.
+      change (pre_info (S d') hr (T g n a ks)) with ((S d', hr, n) :: pre_kids (S d') ks).
+      cbn [app]. unfold st at 1. cbn [yield_go]. fold st. fold U'. cbn [map line_of tname].
+      fold (pfxS U' d'). rewrite <- (pfxS_frame d' U U' A').
+      f_equal. rewrite E2. f_equal.
+      rewrite pfxS_S, M', <- (pfxS_frame d' U U' A'). reflexivity.
+  Qed.
+
+  Theorem yield_is_ref t :
+    map line_of (yield_go st gap [] (pre_info 0 false t)) = tname t :: ref_below st [] t.
+  Proof.
+    destruct t as [g n a ks].
+    change (pre_info 0 false (T g n a ks)) with ((0%nat, false, n) :: pre_kids 0 ks).
+    cbn [yield_go map line_of app tname]. f_equal.
+    assert (HF : Forall sub_spec ks) by (apply Forall_forall; intros k _; apply sub_spec_all).
+    destruct (kids_spec ks HF 0%nat []) as (U2 & _ & E).
+    specialize (E []). rewrite app_nil_r in E. rewrite E. cbn [yield_go map]. rewrite app_nil_r.
+    reflexivity.
+  Qed.
+End Render.
+
+Theorem print_is_ref stem branch final t :
+  length stem = length branch -> length branch = length final ->
+  print_str (stem, branch, final) t = Ret (ref_print (stem, branch, final) t).
+Proof.
+  intros H1 H2. unfold print_str, yield_tree.
+  replace (Nat.eqb (length stem) (length branch)) with true by (symmetry; apply Nat.eqb_eq; exact H1).
+  replace (Nat.eqb (length branch) (length final)) with true by (symmetry; apply Nat.eqb_eq; exact H2).
+  cbn [andb]. apply f_equal. unfold ref_print.
+  pose proof (yield_is_ref stem branch final t) as Y. cbv zeta in Y.
+  apply eq_trans with
+    (concat (map (fun l : list N => l ++ [10])
+                 (map line_of (yield_go (stem, branch, final) (repeat 32 (length stem)) [] (pre_info 0 false t))))).
+  - rewrite map_map. apply f_equal. apply map_ext. intros [[p f] n]. cbn [line_of].
+    rewrite <- !app_assoc. reflexivity.
+  - apply f_equal. apply f_equal. exact Y.
+Qed.
